@@ -14,7 +14,7 @@ def plans(tier):
     if tier == "quick":
         return [(3, "10", 2, "{1}", "FALSE", "FALSE"), (3, "12", 2, "{1}", "FALSE", "FALSE"),
                 (1, "10", 2, "{1}", "FALSE", "TRUE"), (1, "12", 2, "{1}", "TRUE", "FALSE"), (1, "1", 2, "{1}", "FALSE", "FALSE"),
-                (2, "10", 1, "{1, 2}", "TRUE", "TRUE"), (2, "12", 1, "{1, 2}", "FALSE", "TRUE"), (2, "1", 1, "{1}", "TRUE", "TRUE")]
+                (2, "10", 1, "{1, 2}", "TRUE", "FALSE"), (2, "12", 1, "{1, 2}", "FALSE", "FALSE"), (2, "1", 1, "{1}", "TRUE", "FALSE")]
     out = []
     for ver in ["1", "2", "6", "10", "11", "12", "org.matrix.hydra.11"]:
         out.append((1, ver, 2, "{1, 2}", "FALSE", "TRUE"))
@@ -24,15 +24,23 @@ def plans(tier):
 
 
 def generate(ctx):
-    """Runs every plan; returns the de-duplicated list of query records."""
-    seen = set()
-    out = []
+    """Runs every plan (quick tier: concurrently, a few TLC workers each); returns the de-duplicated query records."""
+    from concurrent.futures import ThreadPoolExecutor
     d = ctx._spec_dir()
+    jobs = []
     for n, (start, ver, mf, ts, idd, tri) in enumerate(plans(ctx.tier)):
         cfg = "Room_gen_%s_%d.cfg" % (ctx.tier, n)
         with open(os.path.join(d, cfg), "w") as f:
             f.write(cfg_text(start, ver, mf, ts, idd, triples=tri, forkfrom=(10 if start == 3 else 5)))
-        r = ctx.tlc("Room_gen", cfg, timeout=3000)
+        jobs.append(cfg)
+    if ctx.tier == "quick":
+        with ThreadPoolExecutor(max_workers=4) as ex:
+            results = list(ex.map(lambda cfg: ctx.tlc("Room_gen", cfg, timeout=3000, workers=max(2, ctx.workers // 4)), jobs))
+    else:
+        results = [ctx.tlc("Room_gen", cfg, timeout=6000) for cfg in jobs]
+    seen = set()
+    out = []
+    for r in results:
         for rec in r.records:
             k = json.dumps(rec, sort_keys=True)
             if k not in seen:
